@@ -250,7 +250,10 @@ def extract_fn(relpath, qual, ann):
     for k, ctext in (ann.get("closures") or {}).items():
         k = int(k)
         if k >= len(it["closures"]):
-            raise Inconclusive(f"anchor lost: closure #{k} of {qual}")
+            # the annotated closure no longer exists (e.g. an `update(|c| ..)` replaced by a plain `save`): nothing to annotate;
+            # the function is verified without it and its contract decides
+            ed.log.append({"file": relpath, "line": _srcline(src, s0), "rule": "A1", "note": f"closure annotation #{k} not applied: {qual} has only {len(it['closures'])} closures"})
+            continue
         c = it["closures"][k]
         if c["ret"] is not None:
             raise Inconclusive(f"closure #{k} of {qual} already has a return type")
@@ -322,6 +325,7 @@ def extract_fn(relpath, qual, ann):
         ed.add(hits[occ]["span"][1], hits[occ]["span"][1], "\n" + ptext.rstrip() + "\n", "A1")
     apply_maploops(ed, it, it["closures"], src, ann, qual, relpath)
     apply_forloops(ed, it["loops"], src, ann, qual)
+    apply_fund_sums(ed, src, s0, e0)
     # R6 response attributes
     if ann.get("drop_response_attrs", True):
         for m in it.get("mcalls", []):
@@ -384,6 +388,22 @@ def extract_fn(relpath, qual, ann):
                        "note": f"method of `impl {parent['trait']} for {parent['self_ty']}` emitted as inherent method"})
     text, lm = wrap_parent(text, parent, lm, ann.get("inherent"))
     return text, lm, src, ed.log, labels, it
+
+
+_FUND_SUM_FILTERED = re.compile(rb"(?P<x>\w+(?:\s*\.\s*\w+)*)\s*\.\s*iter\(\)\s*\.\s*filter\(\s*\|(?P<a>\w+)\|\s*(?P=a)\.denom\s*==\s*(?P<d>[\w\.]+)\s*\)\s*\.\s*map\(\s*\|(?P<b>\w+)\|\s*(?P=b)\.amount\s*\)\s*\.\s*sum::<Uint128>\(\)")
+_FUND_SUM_ALL = re.compile(rb"(?P<x>\w+(?:\s*\.\s*\w+)*)\s*\.\s*iter\(\)\s*\.\s*map\(\s*\|(?P<b>\w+)\|\s*(?P=b)\.amount\s*\)\s*\.\s*sum::<Uint128>\(\)")
+
+
+def apply_fund_sums(ed, src, s0, e0):
+    """D5 (mechanical, wherever the shape occurs): summing the amounts of a coin list, of one denom or of all of them."""
+    body = src[s0:e0]
+    for m in _FUND_SUM_FILTERED.finditer(body):
+        x = re.sub(rb"\s+", b"", m.group("x")).decode(); d = m.group("d").decode()
+        ed.add(s0 + m.start(), s0 + m.end(), f"verif_sum_funds(&{x}, &{d})", "D5", "coin amounts of one denom summed by the prelude helper (Uint128 Sum = checked fold)")
+    for m in _FUND_SUM_ALL.finditer(body):
+        x = re.sub(rb"\s+", b"", m.group("x")).decode()
+        ed.add(s0 + m.start(), s0 + m.end(), f"verif_sum_all_funds(&{x})", "D5", "coin amounts of every denom summed by the prelude helper")
+
 
 
 def apply_maploops(ed, it, closures, src, ann, qual, relpath):
